@@ -401,7 +401,7 @@ def jacobi_sum_clenshaw_der(s, alpha, beta, x, j=1, alphas=None):
     # j = derivative
     # n = order
     # inner loop over n, outer loop over j
-    alphas = _initialize_alphas(s, x, None, j=j)
+    alphas = _initialize_alphas(s, x, alphas, j=j)
     M = len(s) - 1
     # seed the first sweep of alpha, for j=0, by side effect
     jacobi_sum_clenshaw(s, alpha, beta, x, alphas=alphas[0])
@@ -409,9 +409,13 @@ def jacobi_sum_clenshaw_der(s, alpha, beta, x, j=1, alphas=None):
     for jj in range(1, j+1):
         if jj > M:
             # a polynomial of degree M has no nonzero derivative of order > M;
-            # the remaining rows stay zero (and M-jj would index from the end)
-            break
+            # the whole row is zero (and M-jj would index from the end)
+            alphas[jj][:] = 0
+            continue
 
+        # entries above M-jj are zero; they are read below, so make sure
+        # they are zero in a caller-supplied buffer too
+        alphas[jj][M-jj+1:] = 0
         # more twisted notation - follow Forbes' paper, but our
         # idea of b and a are swapped
         a, *_ = recurrence_abc(M-jj, alpha, beta)
